@@ -371,8 +371,10 @@ package compose
 //@   ensures[len] len(result) == (n < 2 ? 1 : n) && fresh(result)
 //@   ensures[plain] !is(item, "streamReader") ==> forall(i int :: 0 <= i && i < len(result) ==> result[i] == item)
 //@   ensures[one] n < 2 ==> result[0] == item
+//@   ensures[stream_kind] is(item, "streamReader") ==> forall(i int :: 0 <= i && i < len(result) ==> is(result[i], "streamReader"))
 //@   loop 1:
 //@     modifies elems(ret)
+//@     invariant[stream_kind] forall(j int :: 0 <= j && j < $i ==> is(ret[j], "streamReader"))
 //@   loop 2:
 //@     modifies elems(ret)
 //@     invariant[filled] forall(j int :: 0 <= j && j < $i ==> ret[j] == item)
@@ -467,6 +469,10 @@ package compose
 //@   requires recv != nil
 //@   modifies when(is(recv, "*dagChannel"), fields(asDag(recv))), when(is(recv, "*pregelChannel"), fields(asPregel(recv)))
 
+//@ modset chanCtl(c *channelManager) = forall(k string :: in(k, c.channels) && isDag(c.channels[k]) ==> targets(map(asDag(c.channels[k]).ControlPredecessors), map(asDag(c.channels[k]).DataPredecessors), asDag(c.channels[k]).Skipped))
+//@ modset chanValsContent(c *channelManager) = forall(k string :: in(k, c.channels) && isDag(c.channels[k]) ==> map(asDag(c.channels[k]).Values)), forall(k string :: in(k, c.channels) && isPregel(c.channels[k]) ==> map(asPregel(c.channels[k]).Values))
+//@ modset chanValsField(c *channelManager) = forall(k string :: in(k, c.channels) && isDag(c.channels[k]) ==> asDag(c.channels[k]).Values), forall(k string :: in(k, c.channels) && isPregel(c.channels[k]) ==> asPregel(c.channels[k]).Values)
+
 //@ spec cmOK(c *channelManager) bool = c != nil && c.channels != nil && c.edgeHandlerManager != nil && c.preNodeHandlerManager != nil && forall(k string :: in(k, c.channels) ==> chanOK(c.channels[k]))
 
 //@ func (*edgeHandlerManager).handle
@@ -517,11 +523,12 @@ package compose
 //@   requires cmOK(c) && handlersOK(c)
 //@   requires c.isStream ==> forall(t string, f string :: in(t, values) && in(f, values[t]) ==> is(values[t][f], "streamReader"))
 //@   requires[sep] forall(t string, k string :: in(t, values) && in(k, c.channels) ==> values[t] != chanValues(c.channels[k]))
-//@   modifies region("MD|map[string]bool"), region("MV|map[string]bool"), region("MC|map[string]bool"), region("MD|map[string]any"), region("MV|map[string]any"), region("MC|map[string]any")
+//@   modifies chanCtl(c), chanValsContent(c)
 //@   ensures[unknown_target] (exists(t string :: in(t, values) && !in(t, c.channels))) ==> result != nil
 //@   ensures[ok] cmOK(c)
 //@   at call toChannel.reportValues: assert[only_data_predecessors] forall(f string :: in(f, nFromMap) ==> in(f, dps) && in(f, fromMap))
 //@   loop 1:
+//@     modifies chanCtl(c), chanValsContent(c), fresh()
 //@     invariant[ok] cmOK(c) && handlersOK(c)
 //@     invariant[known] forall(t string :: in(t, $seen) ==> in(t, c.channels))
 //@     invariant[kind] c.isStream ==> forall(t string, f string :: in(t, values) && in(f, values[t]) ==> is(values[t][f], "streamReader"))
@@ -534,12 +541,12 @@ package compose
 //@ func (*channelManager).updateDependencies
 //@   props C02
 //@   requires cmOK(c)
-//@   modifies region("MD|map[string]compose.dependencyState"), region("MV|map[string]compose.dependencyState"), region("MC|map[string]compose.dependencyState")
+//@   modifies chanCtl(c)
 //@   ensures[unknown_target] (exists(t string :: in(t, dependenciesMap) && !in(t, c.channels))) ==> result != nil
 //@   ensures[ok] cmOK(c)
 //@   at call toChannel.reportDependencies: assert[only_control_predecessors] forall(i int :: 0 <= i && i < len(deps) ==> in(deps[i], cps) && inList(deps[i], dependencies))
 //@   loop 1:
-//@     modifies fresh(), region("MD|map[string]compose.dependencyState"), region("MV|map[string]compose.dependencyState"), region("MC|map[string]compose.dependencyState")
+//@     modifies fresh(), chanCtl(c)
 //@     invariant[ok] cmOK(c)
 //@     invariant[known] forall(t string :: in(t, $seen) ==> in(t, c.channels))
 //@   loop 2:
@@ -550,13 +557,13 @@ package compose
 //@ func (*channelManager).getFromReadyChannels
 //@   props C01 C02
 //@   requires cmOK(c) && handlersOK(c)
-//@   modifies region("F|compose.dagChannel|Values"), region("F|compose.pregelChannel|Values"), region("MD|map[string]compose.dependencyState"), region("MV|map[string]compose.dependencyState"), region("MC|map[string]compose.dependencyState"), region("MD|map[string]bool"), region("MV|map[string]bool"), region("MC|map[string]bool")
+//@   modifies chanCtl(c), chanValsField(c)
 //@   ensures[keys] result1 == nil ==> result0 != nil && fresh(result0) && forall(k string :: in(k, result0) ==> in(k, c.channels))
 //@   ensures[err] result1 != nil ==> result0 == nil
 //@   ensures[ok] cmOK(c)
 //@   ensures[kind] result1 == nil && c.isStream ==> forall(k string :: in(k, result0) ==> true)
 //@   loop 1:
-//@     modifies map(result), region("F|compose.dagChannel|Values"), region("F|compose.pregelChannel|Values"), region("MD|map[string]compose.dependencyState"), region("MV|map[string]compose.dependencyState"), region("MC|map[string]compose.dependencyState"), region("MD|map[string]bool"), region("MV|map[string]bool"), region("MC|map[string]bool")
+//@     modifies map(result), chanCtl(c), chanValsField(c)
 //@     invariant[ok] cmOK(c) && handlersOK(c)
 //@     invariant[keys] forall(k string :: in(k, result) ==> in(k, $seen))
 
@@ -565,7 +572,7 @@ package compose
 //@   requires cmOK(c) && handlersOK(c)
 //@   requires c.isStream ==> forall(t string, f string :: in(t, values) && in(f, values[t]) ==> is(values[t][f], "streamReader"))
 //@   requires[sep] forall(t string, k string :: in(t, values) && in(k, c.channels) ==> values[t] != chanValues(c.channels[k]))
-//@   modifies region("F|compose.dagChannel|Values"), region("F|compose.pregelChannel|Values"), region("MD|map[string]compose.dependencyState"), region("MV|map[string]compose.dependencyState"), region("MC|map[string]compose.dependencyState"), region("MD|map[string]bool"), region("MV|map[string]bool"), region("MC|map[string]bool"), region("MD|map[string]any"), region("MV|map[string]any"), region("MC|map[string]any")
+//@   modifies chanCtl(c), chanValsContent(c), chanValsField(c)
 //@   ensures[keys] result1 == nil ==> result0 != nil && forall(k string :: in(k, result0) ==> in(k, c.channels))
 //@   ensures[err] result1 != nil ==> result0 == nil
 //@   ensures[ok] cmOK(c)
@@ -575,22 +582,111 @@ package compose
 //@   requires cmOK(c)
 //@   requires[known_nodes] forall(i int :: 0 <= i && i < len(skippedNodes) ==> in(skippedNodes[i], c.channels))
 //@   requires[known_successors] forall(k string, i int :: in(k, c.successors) && 0 <= i && i < len(c.successors[k]) ==> in(c.successors[k][i], c.channels))
-//@   modifies region("F|compose.dagChannel|Skipped"), region("MD|map[string]compose.dependencyState"), region("MV|map[string]compose.dependencyState"), region("MC|map[string]compose.dependencyState"), region("MD|map[string]bool"), region("MV|map[string]bool"), region("MC|map[string]bool")
+//@   modifies chanCtl(c)
 //@   ensures[ok] cmOK(c)
 //@   loop 1:
-//@     modifies fresh(), region("F|compose.dagChannel|Skipped"), region("MD|map[string]compose.dependencyState"), region("MV|map[string]compose.dependencyState"), region("MC|map[string]compose.dependencyState"), region("MD|map[string]bool"), region("MV|map[string]bool"), region("MC|map[string]bool")
+//@     modifies fresh(), chanCtl(c)
 //@     invariant[ok] cmOK(c)
 //@     invariant[fresh] nKeys == nil || fresh(nKeys)
 //@     invariant[known] forall(i int :: 0 <= i && i < len(nKeys) ==> in(nKeys[i], c.channels))
 //@   loop 2:
-//@     modifies fresh(), region("F|compose.dagChannel|Skipped"), region("MD|map[string]compose.dependencyState"), region("MV|map[string]compose.dependencyState"), region("MC|map[string]compose.dependencyState"), region("MD|map[string]bool"), region("MV|map[string]bool"), region("MC|map[string]bool")
+//@     modifies fresh(), chanCtl(c)
 //@     invariant[idx] 0 <= i
 //@     invariant[ok] cmOK(c)
 //@     invariant[fresh] nKeys == nil || fresh(nKeys)
 //@     invariant[known] forall(j int :: 0 <= j && j < len(nKeys) ==> in(nKeys[j], c.channels))
 //@   loop 3:
-//@     modifies fresh(), region("F|compose.dagChannel|Skipped"), region("MD|map[string]compose.dependencyState"), region("MV|map[string]compose.dependencyState"), region("MC|map[string]compose.dependencyState"), region("MD|map[string]bool"), region("MV|map[string]bool"), region("MC|map[string]bool")
+//@     modifies fresh(), chanCtl(c)
 //@     invariant[ok] cmOK(c)
 //@     invariant[fresh] nKeys == nil || fresh(nKeys)
 //@     invariant[known] forall(j int :: 0 <= j && j < len(nKeys) ==> in(nKeys[j], c.channels))
 //@     invariant[i_kept] 0 <= i && i < len(nKeys)
+
+//@ fieldfunc GraphBranch.invoke
+//@   trusted the closure stored by newGraphBranch runs the user's condition through NewGraphMultiBranch's condRun, which rejects targets outside endNodes (NewGraphMultiBranch$1 is verified for that)
+//@   ensures[targets] err == nil ==> forall(i int :: 0 <= i && i < len(output) ==> in(output[i], recv.endNodes))
+//@ fieldfunc GraphBranch.collect
+//@   trusted as GraphBranch.invoke
+//@   ensures[targets] err == nil ==> forall(i int :: 0 <= i && i < len(output) ==> in(output[i], recv.endNodes))
+
+//@ spec branchesOK(r *runner, cur string, ch *chanCall) bool = ch != nil && (forall(b int :: 0 <= b && b < len(ch.writeToBranches) ==> ch.writeToBranches[b] != nil && ch.writeToBranches[b].invoke != nil && ch.writeToBranches[b].collect != nil)) && (in(cur, r.preBranchHandlerManager.h) ==> len(r.preBranchHandlerManager.h[cur]) >= len(ch.writeToBranches))
+//@ spec branchHandlersOK(r *runner) bool = r.preBranchHandlerManager != nil && forall(k string, b int, i int :: in(k, r.preBranchHandlerManager.h) && 0 <= b && b < len(r.preBranchHandlerManager.h[k]) && 0 <= i && i < len(r.preBranchHandlerManager.h[k][b]) ==> r.preBranchHandlerManager.h[k][b][i].invoke != nil && r.preBranchHandlerManager.h[k][b][i].transform != nil)
+//@ spec tablesOK(c *channelManager) bool = forall(k string, i int :: in(k, c.successors) && 0 <= i && i < len(c.successors[k]) ==> in(c.successors[k][i], c.channels))
+
+//@ func (*runner).calculateBranch
+//@   props C01 C02
+//@   requires[cm] r != nil && cmOK(cm)
+//@   requires[tables] tablesOK(cm)
+//@   requires[bh] branchHandlersOK(r)
+//@   requires[branches] branchesOK(r, curNodeKey, startChan)
+//@   requires[enough_inputs] len(input) >= len(startChan.writeToBranches)
+//@   requires[stream_inputs] isStream ==> forall(i int :: 0 <= i && i < len(input) ==> is(input[i], "streamReader"))
+//@   requires[end_nodes_known] forall(b int, k string :: 0 <= b && b < len(startChan.writeToBranches) && in(k, startChan.writeToBranches[b].endNodes) ==> in(k, cm.channels))
+//@   modifies elems(input), chanCtl(cm)
+//@   ensures[no_branch] len(startChan.writeToBranches) == 0 && result1 == nil ==> len(result0) == 0
+//@   ensures[fresh_result] result1 == nil ==> fresh(result0)
+//@   ensures[targets] result1 == nil ==> forall(i int :: 0 <= i && i < len(result0) ==> in(result0[i], cm.channels))
+//@   ensures[ok] cmOK(cm)
+//@   loop 1:
+//@     modifies elems(input), fresh()
+//@     invariant[fresh] fresh(ret) && fresh(skippedNodes)
+//@     invariant[targets] forall(i int :: 0 <= i && i < len(ret) ==> in(ret[i], cm.channels))
+//@     invariant[skipped_known] forall(k string :: in(k, skippedNodes) ==> in(k, cm.channels))
+//@     invariant[stream_inputs] isStream ==> forall(i int :: 0 <= i && i < len(input) ==> is(input[i], "streamReader"))
+//@     invariant[nobranch_empty] $i == 0 ==> len(ret) == 0
+//@   loop 2:
+//@     modifies map(skippedNodes)
+//@     invariant[skipped_known] forall(k string :: in(k, skippedNodes) ==> in(k, cm.channels))
+//@   at call cm.reportBranch: assert[selected_not_skipped] @C02 forall(i int :: 0 <= i && i < len(skippedNodeList) ==> !inList(skippedNodeList[i], ret))
+//@   loop 4:
+//@     modifies map(skippedNodes)
+//@     invariant[skipped_known] forall(k string :: in(k, skippedNodes) ==> in(k, cm.channels))
+//@     invariant[not_selected] forall(k string :: in(k, skippedNodes) ==> !exists(j int :: 0 <= j && j < $i && ret[j] == k))
+//@   loop 5:
+//@     modifies fresh()
+//@     invariant[fresh] (skippedNodeList == nil || fresh(skippedNodeList)) && arr(skippedNodeList) != arr(ret)
+//@     invariant[known] forall(i int :: 0 <= i && i < len(skippedNodeList) ==> in(skippedNodeList[i], cm.channels))
+//@     invariant[from_map] forall(i int :: 0 <= i && i < len(skippedNodeList) ==> in(skippedNodeList[i], skippedNodes))
+//@     invariant[not_selected] forall(k string :: in(k, skippedNodes) ==> !inList(k, ret))
+//@     invariant[targets] forall(i int :: 0 <= i && i < len(ret) ==> in(ret[i], cm.channels))
+
+//@ spec taskOK(r *runner, cm *channelManager, t *task, isStream bool) bool = t != nil && t.call != nil && branchesOK(r, t.nodeKey, t.call) && (isStream ==> is(t.output, "streamReader")) && (forall(b int, k string :: 0 <= b && b < len(t.call.writeToBranches) && in(k, t.call.writeToBranches[b].endNodes) ==> in(k, cm.channels))) && (forall(b int, k string :: 0 <= b && b < len(t.call.writeToBranches) && in(k, cm.channels) && isDag(cm.channels[k]) ==> t.call.writeToBranches[b].endNodes != asDag(cm.channels[k]).DataPredecessors))
+
+//@ spec wcvFresh(m map[string]map[string]any) bool = m != nil && fresh(m) && forall(k string :: in(k, m) ==> m[k] != nil && fresh(m[k]))
+//@ spec wcvSources(m map[string]map[string]any, ts []*task, n int) bool = forall(k string, f string :: in(k, m) && in(f, m[k]) ==> taskKeyIn(f, ts, n))
+//@ spec wcvStreams(m map[string]map[string]any) bool = forall(k string, f string :: in(k, m) && in(f, m[k]) ==> is(m[k][f], "streamReader"))
+//@ spec wcvCovered(m map[string]map[string]any, ts []*task, n int) bool = forall(j int, w int :: 0 <= j && j < n && 0 <= w && w < len(ts[j].call.writeTo) ==> in(ts[j].call.writeTo[w], m) && in(ts[j].nodeKey, m[ts[j].call.writeTo[w]]))
+
+//@ spec depsFresh(m map[string][]string) bool = forall(k string :: in(k, m) ==> m[k] == nil || fresh(m[k]))
+
+//@ func (*runner).resolveCompletedTasks
+//@   props C01 C02 C19
+//@   requires r != nil && cmOK(cm) && tablesOK(cm) && branchHandlersOK(r)
+//@   requires[tasks] forall(j int :: 0 <= j && j < len(completedTasks) ==> taskOK(r, cm, completedTasks[j], isStream))
+//@   modifies fresh(), chanCtl(cm)
+//@   ensures[fresh] result2 == nil ==> wcvFresh(result0) && result1 != nil && fresh(result1)
+//@   ensures[stream_kind] result2 == nil && isStream ==> wcvStreams(result0)
+//@   ensures[sources] result2 == nil ==> wcvSources(result0, completedTasks, len(completedTasks))
+//@   ensures[ok] cmOK(cm)
+//@   loop 1:
+//@     modifies fresh(), chanCtl(cm)
+//@     invariant[ok_cm] cmOK(cm)
+//@     invariant[ok_tables] tablesOK(cm)
+//@     invariant[ok_bh] branchHandlersOK(r)
+//@     invariant[tasks] forall(j int :: 0 <= j && j < len(completedTasks) ==> taskOK(r, cm, completedTasks[j], isStream))
+//@     invariant[fresh] wcvFresh(writeChannelValues) && newDependencies != nil && fresh(newDependencies) && depsFresh(newDependencies)
+//@     invariant[stream_kind] isStream ==> wcvStreams(writeChannelValues)
+//@     invariant[sources] wcvSources(writeChannelValues, completedTasks, $i)
+//@   loop 2:
+//@     modifies map(newDependencies), fresh()
+//@     invariant[deps_fresh] depsFresh(newDependencies)
+//@   loop 3:
+//@     modifies map(newDependencies), fresh()
+//@     invariant[deps_fresh] depsFresh(newDependencies)
+//@   loop 4:
+//@     modifies map(writeChannelValues), fresh()
+//@     invariant[fresh] wcvFresh(writeChannelValues)
+//@     invariant[stream_kind] isStream ==> wcvStreams(writeChannelValues)
+//@     invariant[vs_kind] isStream ==> forall(m int :: 0 <= m && m < len(vs) ==> is(vs[m], "streamReader"))
+//@     invariant[vs_len] len(vs) >= len(nextNodeKeys) && fresh(vs)
+//@     invariant[sources] wcvSources(writeChannelValues, completedTasks, $i_1 + 1)
